@@ -22,7 +22,8 @@ open PvModel
 structure ScopeObs where
   id : ScopeId
   exists_ : Bool
-  owners : List Addr
+  /-- the scope's parties as the dump shows them: the address, with a trailing `?` when optional -/
+  owners : List String
   /-- `GetScopeValueOwner`: `""` = none, `"!"` = the lookup failed -/
   vo : String
   /-- accounts with a non-zero balance of the scope denom, with the balance -/
@@ -32,6 +33,8 @@ structure ScopeObs where
   qvo : String := ""
   /-- the accounts whose `ValueOwnership` query lists this scope -/
   listed : List Addr := []
+  /-- `require_party_rollup` of the stored scope -/
+  rollup : Bool := false
   deriving DecidableEq, Repr
 
 structure Obs where
@@ -144,22 +147,25 @@ def stepClause (pre : Obs) (st : StepInfo) (post : Obs) : Option String :=
 def holdersOf (l : Ledger) (d : Denom) : List (Addr × Int) :=
   (dedup (l.map (·.addr))).filterMap fun a => if Ledger.bal l a d ≠ 0 then some (a, Ledger.bal l a d) else none
 
+def showParty (p : Party) : String := if p.optional then p.addr ++ "?" else p.addr
+
 def observeScope (s : State) (id : ScopeId) : ScopeObs :=
   { id := id
     exists_ := hasScope s id
-    owners := match findScope s id with | some e => e.owners | none => []
+    owners := match findScope s id with | some e => e.owners.map showParty | none => []
     vo := match denomOwner s.ledger id with | .ok o => o.getD "" | .error _ => "!"
     holders := holdersOf s.ledger id
     supply := Ledger.supply s.ledger id
     qvo := if hasScope s id then (match denomOwner s.ledger id with | .ok o => o.getD "" | .error _ => "!") else ""
-    listed := (holdersOf s.ledger id).map (·.1) }
+    listed := (holdersOf s.ledger id).map (·.1)
+    rollup := match findScope s id with | some e => e.rollup | none => false }
 
 def observe (s : State) (ids : List ScopeId) : Obs :=
   { scopes := ids.map (observeScope s), grants := s.grants, markers := s.markers }
 
 def stepInfo (op : Op) (accepted : Bool) : StepInfo :=
   match op with
-  | .write _ _ _ signers => { kind := .msg .write, signers, accepted }
+  | .write _ _ _ _ signers => { kind := .msg .write, signers, accepted }
   | .delete id signers => { kind := .msg .delete, signers, target := some id, accepted }
   | .updvo _ _ signers => { kind := .msg .updvo, signers, accepted }
   | .migrate _ _ signers => { kind := .msg .migrate, signers, accepted }
